@@ -83,7 +83,7 @@ func isCallNamed(v ssa.Value, name string) bool {
 		return false
 	}
 	fn := calleeFunc(c)
-	return fn != nil && fn.Name() == name
+	return fn != nil && nm(fn) == name
 }
 
 func c17Guard(rc *RuleCtx) {
